@@ -504,6 +504,8 @@ func runC05(cfg *vh.Config) error {
 			}
 		}
 	}
+	// the printer's two order decisions on every printed file (original and re-parsed descriptor), no budget
+	orders := &orderCollector{seen: vh.Distinct{}, max: cfg.Scale(2000, 20000)}
 	// file layer: descriptor + real tokens of its printed text, for model/ProtoPrintFileCorr.v
 	type fileCaseRec struct {
 		term, where string
@@ -512,7 +514,7 @@ func runC05(cfg *vh.Config) error {
 	var fileCases []fileCaseRec
 	fileSeen := vh.Distinct{}
 	fileToks := map[string]int{}
-	maxFileToks := map[string]int{"repo-proto": cfg.Scale(16000, 400000), "compiled": cfg.Scale(18000, 600000), "hand-built": 100000}
+	maxFileToks := map[string]int{"repo-proto": cfg.Scale(24000, 400000), "compiled": cfg.Scale(30000, 600000), "hand-built": 100000}
 	addFile := func(stream string, fd protoreflect.FileDescriptor, out rtOut, fails []rtFailure, where string, input any) {
 		lost := false
 		for _, f := range fails {
@@ -527,6 +529,8 @@ func runC05(cfg *vh.Config) error {
 			return
 		}
 		fileSeen.Add(out.Txt1)
+		orders.file(fd)
+		orders.file(out.Fd2)
 		if fileToks[stream] >= maxFileToks[stream] {
 			res.Count("file-layer:over the token budget of this tier")
 			return
@@ -641,6 +645,113 @@ func runC05(cfg *vh.Config) error {
 		}
 		report("hand-built", "C05 hand-built descriptor with file string options", input, fails)
 		res.Sample(map[string]any{"stream": "hand-built", "file": name, "value": fmt.Sprintf("%q", val), "failures": len(fails)}, 3)
+	}
+
+	// an option statement whose value is an empty message written over two lines (`= {` newline `};`): parseOption does
+	// not inline it (the source is not single-line), printOption's empty-message branch
+	for _, root := range roots {
+		if _, ok := root.Files["j5/ext/v1/annotations.proto"]; !ok {
+			continue
+		}
+		files := map[string]string{}
+		for k, v := range root.Files {
+			files[k] = v
+		}
+		name := "hand/v1/multiline.proto"
+		files[name] = "syntax = \"proto3\";\n\npackage hand.v1;\n\nimport \"j5/ext/v1/annotations.proto\";\n\nmessage Multi {\n  option (j5.ext.v1.message).object = {\n  };\n\n  string a = 1;\n}\n"
+		parsed, err := tool.ParseProto(ctx, files, []string{name})
+		if err != nil {
+			res.Notes = append(res.Notes, "hand-built multi-line option file does not parse: "+trim(err.Error(), 160))
+			break
+		}
+		for _, fd := range parsed {
+			if fd.Path() != name {
+				continue
+			}
+			caseNo++
+			res.Count("hand-built")
+			distinct.Add("hand-multiline")
+			input := map[string]any{"file": name, "source": files[name]}
+			rt, fails := roundTripOut(ctx, fd, files)
+			addFile("hand-built", fd, rt, fails, name, input)
+			if len(fails) == 0 {
+				res.Count("hand-built:round trip ok")
+			} else {
+				res.Count("hand-built:round trip fails")
+			}
+			report("hand-built", "C05 hand-written file with an empty message option over two lines", input, fails)
+		}
+		break
+	}
+
+	// two files of ONE package printed by one process, the second with a sub-package in scope that captures the first
+	// part of a foreign package name the first file also refers to (seeded C05-G: a per-package memo of the capture
+	// decision): a.proto prints common.v1.Money, b.proto must print .common.v1.Money
+	{
+		pair := map[string]string{
+			"common/v1/money.proto":  "syntax = \"proto3\";\npackage common.v1;\nmessage Money { string amount = 1; }\n",
+			"hand/v1/common/x.proto": "syntax = \"proto3\";\npackage hand.v1.common;\nmessage Local { string note = 1; }\n",
+			"hand/v1/a.proto":        "syntax = \"proto3\";\npackage hand.v1;\nimport \"common/v1/money.proto\";\nmessage First { common.v1.Money price = 1; }\n",
+			"hand/v1/b.proto":        "syntax = \"proto3\";\npackage hand.v1;\nimport \"common/v1/money.proto\";\nimport \"hand/v1/common/x.proto\";\nmessage Second { .common.v1.Money price = 1; hand.v1.common.Local local = 2; }\n",
+		}
+		parsed, err := tool.ParseProto(ctx, pair, []string{"hand/v1/a.proto", "hand/v1/b.proto"})
+		if err != nil {
+			res.Notes = append(res.Notes, "hand-built same-package pair does not parse: "+trim(err.Error(), 160))
+		}
+		for _, name := range []string{"hand/v1/a.proto", "hand/v1/b.proto"} { // this order: the non-capturing file first
+			for _, fd := range parsed {
+				if fd.Path() != name {
+					continue
+				}
+				caseNo++
+				res.Count("hand-built")
+				distinct.Add("hand-pair:" + name)
+				input := map[string]any{"file": name, "files of the package, printed in this order": []string{"hand/v1/a.proto", "hand/v1/b.proto"}, "source": pair[name]}
+				rt, fails := roundTripOut(ctx, fd, pair)
+				addFile("hand-built", fd, rt, fails, name, input)
+				if len(fails) == 0 {
+					res.Count("hand-built:round trip ok")
+				} else {
+					res.Count("hand-built:round trip fails")
+				}
+				report("hand-built", "C05 two files of one package printed by one process", input, fails)
+			}
+		}
+	}
+
+	// the same constellation in the other order (capturing file first), with other names so that a state kept per
+	// (package, name) by the printer is fresh: r.proto must print .shared.v1.Coin, q.proto shared.v1.Coin (the model says
+	// so; a state leaking from r to q shows as a tie mismatch on q's tokens)
+	{
+		pair := map[string]string{
+			"shared/v1/coin.proto":    "syntax = \"proto3\";\npackage shared.v1;\nmessage Coin { string amount = 1; }\n",
+			"other/v1/shared/x.proto": "syntax = \"proto3\";\npackage other.v1.shared;\nmessage Local { string note = 1; }\n",
+			"other/v1/q.proto":        "syntax = \"proto3\";\npackage other.v1;\nimport \"shared/v1/coin.proto\";\nmessage Plain { shared.v1.Coin price = 1; }\n",
+			"other/v1/r.proto":        "syntax = \"proto3\";\npackage other.v1;\nimport \"shared/v1/coin.proto\";\nimport \"other/v1/shared/x.proto\";\nmessage Capturing { .shared.v1.Coin price = 1; other.v1.shared.Local local = 2; }\n",
+		}
+		parsed, err := tool.ParseProto(ctx, pair, []string{"other/v1/q.proto", "other/v1/r.proto"})
+		if err != nil {
+			res.Notes = append(res.Notes, "hand-built same-package pair (reverse) does not parse: "+trim(err.Error(), 160))
+		}
+		for _, name := range []string{"other/v1/r.proto", "other/v1/q.proto"} { // the capturing file first
+			for _, fd := range parsed {
+				if fd.Path() != name {
+					continue
+				}
+				caseNo++
+				res.Count("hand-built")
+				distinct.Add("hand-pair:" + name)
+				input := map[string]any{"file": name, "files of the package, printed in this order": []string{"other/v1/r.proto", "other/v1/q.proto"}, "source": pair[name]}
+				rt, fails := roundTripOut(ctx, fd, pair)
+				addFile("hand-built", fd, rt, fails, name, input)
+				if len(fails) == 0 {
+					res.Count("hand-built:round trip ok")
+				} else {
+					res.Count("hand-built:round trip fails")
+				}
+				report("hand-built", "C05 two files of one package printed by one process", input, fails)
+			}
+		}
 	}
 
 	// ------------------------------------------------------------ stream 2: compiled j5s packages
@@ -827,7 +938,7 @@ func runC05(cfg *vh.Config) error {
 		Type:   "c05file",
 		Check:  "c05_file_check",
 	}
-	const perFile = 8
+	const perFile = 6
 	for i, c := range fileCases {
 		caseNo++
 		res.Count("file")
@@ -840,9 +951,29 @@ func runC05(cfg *vh.Config) error {
 	if err != nil {
 		return err
 	}
+	// order decisions: a fourth family of shards
+	od := &vh.CasesFile{
+		Header: "From Coq Require Import String List NArith ZArith.\nFrom J5V.model Require Import ProtoPrintLit ProtoPrint ProtoPrintCorr ProtoPrintFile ProtoPrintFileCorr.",
+		Type:   "c05order",
+		Check:  "c05_order_check",
+	}
+	for i, t := range orders.terms {
+		caseNo++
+		res.Count("order-decision")
+		od.Terms = append(od.Terms, t)
+		res.Cases = append(res.Cases, vh.CaseRec{Case: caseNo, Stream: "order-decision", Shard: fmt.Sprintf("order_%d", i/per), Pos: i % per, Input: orders.where[i], Impl: t})
+	}
+	for _, f := range orders.fails {
+		res.Notes = append(res.Notes, "order-decision: OptionsFor failed: "+trim(f, 120))
+	}
+	res.Distribution["order-decision:descriptors contributing new pairs"] = orders.files
+	odshards, err := od.WriteShards(cfg.Out, "order", per)
+	if err != nil {
+		return err
+	}
 	res.Evaluations = caseNo
 	res.Distinct = len(distinct)
-	res.Shards = append(append(shards, oshards...), fshards...)
+	res.Shards = append(append(append(shards, oshards...), fshards...), odshards...)
 	return res.Write(cfg.Out)
 }
 
